@@ -15,6 +15,27 @@ from .model import AnalysisError, Program
 from .report import Report
 
 
+_ANCHORS = None
+
+
+def _anchor_names():
+    """Private helper names the rules themselves mention (their anchors): those
+    are never inlined; any other private helper is expanded into its callers
+    before a shape rule looks at them (inline.py)."""
+    global _ANCHORS
+    if _ANCHORS is None:
+        import re
+        here = os.path.dirname(os.path.abspath(__file__))
+        names = set()
+        for d in (here, os.path.join(here, "props")):
+            for fn in sorted(os.listdir(d)):
+                if fn.endswith(".py") and fn != "inline.py":
+                    with open(os.path.join(d, fn), encoding="utf-8") as fh:
+                        names.update(re.findall(r"\b_[A-Za-z][A-Za-z0-9_]*\b", fh.read()))
+        _ANCHORS = frozenset(names)
+    return _ANCHORS
+
+
 def run_property(prop, program, tier="quick", quiet=False, write=True):
     """Run all rules of one property; returns (exit code, Report)."""
     from .props.common import Ctx
@@ -25,6 +46,7 @@ def run_property(prop, program, tier="quick", quiet=False, write=True):
     except ImportError as e:
         rep.error(prop, "no checker module: %s" % e)
         return rep.finish("no checker"), rep
+    program.normalise(_anchor_names())
     ctx = Ctx(program, rep, tier)
     rules = list(mod.RULES)
     if tier == "thorough":
